@@ -25,7 +25,7 @@ var (
 		"JaVaScRiPt:alert(1)", " javascript:alert(1)", "java\tscript:alert(1)", "jav&#x09;ascript:alert(1)", "data:image/png;base64,iVBORw0KGgo=",
 		"data:text/html,<script>alert(1)</script>", "mailto:a@b.c", "//host/p", "http://[::1]/", "http://a b/", "%zz", "vbscript:x",
 		"", "?q=1", "ftp://f/x", "x:y", "http:\\\\e.com\\p", "HTTP://EXAMPLE.ORG/Up", "http://u:p@h.com/", "http://h.com/%41%zz", "https://xn--nxasmq6b.example/",
-		"http://example.com/é", " http://example.org/lead", "\nhttps://e.com/x", "https://e.com/trail\n", "data:image/png;base64,iVBO\nRw0KGgo=", "\x01javascript:alert(1)", "http://example.org/a b", "tel:+1234", "HtTpS://e.com/x?y=<z>"}
+		"http://example.com/é", "httpx://e.com/", "xhttp://e.com/x", "web+https:x", "https:opaque.example/p.gif", "a b", "x\ty", "/caf\u00e9/menu", "http://e.com/%zz", " http://example.org/lead", "\nhttps://e.com/x", "https://e.com/trail\n", "data:image/png;base64,iVBO\nRw0KGgo=", "\x01javascript:alert(1)", "http://example.org/a b", "tel:+1234", "HtTpS://e.com/x?y=<z>"}
 	genTextVals  = []string{"k", "a b", "x\"y", "<i>", "&amp;", "é中", "1", "50%", "rtl", "LTR", "", "left", "abc def", "'q'", "a\x00b", "on", "red;"}
 	genRelVals   = []string{"nofollow", "NOFOLLOW", "noopener", "tag", "xnofollowx", "", "me  nofollow", "noreferrer noopener", "notnoopenerx", "author\tnofollow"}
 	genTgtVals   = []string{"_blank", "_top", "", "_BLANK", "frame1"}
@@ -125,11 +125,14 @@ func GenRecipe(r *rand.Rand, o GenOpts) Recipe {
 			if c.NoAttrs && r.Intn(3) == 0 {
 				c.Attrs = nil
 			}
+			if !c.NoAttrs && r.Intn(12) == 0 {
+				c.Attrs = nil // an empty attribute list: the call must change nothing
+			}
 			switch r.Intn(4) {
 			case 0:
 				c.Scope = "glob"
 				if len(c.Attrs) == 0 {
-					c.Scope, c.Els = "els", pickN(r, elPool, 2)
+					c.Scope, c.Els = "els", pickN(r, append(append([]string{}, elPool...), genSkipEls...), 2)
 				}
 			case 1:
 				c.Scope, c.Pat = "pat", pickS(r, genPats)
@@ -173,6 +176,8 @@ func GenRecipe(r *rand.Rand, o GenOpts) Recipe {
 			default:
 				if !o.NoUnsafe {
 					add(Call{M: "AllowUnsafe", B: r.Intn(2) == 0})
+				} else {
+					add(Call{M: "AllowUnsafe", B: false}) // an explicit "no"
 				}
 			}
 		case 13:
@@ -236,7 +241,13 @@ type docGen struct {
 
 func (g *docGen) mark(prefix string) string {
 	g.marker++
-	return fmt.Sprintf("%s%dz", prefix, g.marker)
+	m := fmt.Sprintf("%s%dz", prefix, g.marker)
+	// character data is not always plain: markup characters, a carriage return (only expressible as a
+	// character reference), a no-break space
+	if prefix == "T" && g.r.Intn(4) == 0 {
+		m += pickS(g.r, []string{"&", "<", ">", "\"", "'", "\r", "\u00a0", "&amp;", "<b>"})
+	}
+	return m
 }
 
 func (g *docGen) attrs(n string) []Attr {
